@@ -694,6 +694,43 @@ P("seed-C18-14", ["C18"], "seeded/C18-14/patch.diff")
 P("seed-C19-13", ["C19"], "seeded/C19-13/patch.diff")
 P("seed-C19-14", ["C19"], "seeded/C19-14/patch.diff")
 
+# ------------------------------------------------------------------ round-11 seeds (38; 23 at first contact, 34 after the rules of DESIGN 7.11;
+# C01-15, C01-16, C16-15 are value-level and stay unreported, C03-15 is reported by C12)
+P("seed-C02-15", ["C02"], "seeded/C02-15/patch.diff")
+P("seed-C02-16", ["C02"], "seeded/C02-16/patch.diff")
+P("seed-C03-16", ["C03"], "seeded/C03-16/patch.diff")
+P("seed-C04-15", ["C04"], "seeded/C04-15/patch.diff")
+P("seed-C04-16", ["C04"], "seeded/C04-16/patch.diff")
+P("seed-C06-15", ["C06"], "seeded/C06-15/patch.diff")
+P("seed-C06-16", ["C06"], "seeded/C06-16/patch.diff")
+P("seed-C07-15", ["C07"], "seeded/C07-15/patch.diff")
+P("seed-C07-16", ["C07"], "seeded/C07-16/patch.diff")
+P("seed-C08-15", ["C08"], "seeded/C08-15/patch.diff")
+P("seed-C08-16", ["C08"], "seeded/C08-16/patch.diff")
+P("seed-C09-15", ["C09"], "seeded/C09-15/patch.diff")
+P("seed-C09-16", ["C09"], "seeded/C09-16/patch.diff")
+P("seed-C10-15", ["C10"], "seeded/C10-15/patch.diff")
+P("seed-C10-16", ["C10"], "seeded/C10-16/patch.diff")
+P("seed-C11-15", ["C11"], "seeded/C11-15/patch.diff")
+P("seed-C11-16", ["C11"], "seeded/C11-16/patch.diff")
+P("seed-C12-15", ["C12"], "seeded/C12-15/patch.diff")
+P("seed-C12-16", ["C12"], "seeded/C12-16/patch.diff")
+P("seed-C13-15", ["C13"], "seeded/C13-15/patch.diff")
+P("seed-C13-16", ["C13"], "seeded/C13-16/patch.diff")
+P("seed-C14-15", ["C14"], "seeded/C14-15/patch.diff")
+P("seed-C14-16", ["C14"], "seeded/C14-16/patch.diff")
+P("seed-C15-15", ["C15"], "seeded/C15-15/patch.diff")
+P("seed-C15-16", ["C15"], "seeded/C15-16/patch.diff")
+P("seed-C16-16", ["C16"], "seeded/C16-16/patch.diff")
+P("seed-C17-15", ["C17"], "seeded/C17-15/patch.diff")
+P("seed-C17-16", ["C17"], "seeded/C17-16/patch.diff")
+P("seed-C18-15", ["C18"], "seeded/C18-15/patch.diff")
+P("seed-C18-16", ["C18"], "seeded/C18-16/patch.diff")
+P("seed-C19-15", ["C19"], "seeded/C19-15/patch.diff")
+P("seed-C19-16", ["C19"], "seeded/C19-16/patch.diff")
+P("seed-C20-15", ["C20"], "seeded/C20-15/patch.diff")
+P("seed-C20-16", ["C20"], "seeded/C20-16/patch.diff")
+
 # ------------------------------------------------------------------ generated whole-package benign rewrites (every property)
 for _g in ("reformat", "logging", "rename-locals"):
     VARIANTS.append({"id": f"gen-{_g}", "kind": "benign", "props": ["*"], "gen": _g})
